@@ -231,6 +231,7 @@ def materialize(spec, rt_holder, tag=''):
         if fails:
             cls = fails[min(a, len(fails) - 1)]
             if cls is not None:
+                rt_holder[0].trace.append(['raise', i, cls])
                 raise make_exc(cls, i, a)
         b = nd['beh']
         if b == 'none':
